@@ -229,6 +229,70 @@ def adaptive_checks(seed, T):
     return out
 
 
+def ode_checks(seed, tier):
+    """User-defined ODEs advanced together with the N-body system (docs: 'advanced to the exact same time as the N-body
+    system using BS ... to achieve the tolerance set in ri_bs').  Harmonic oscillators y'' = -w^2 y with w*dt from 0.1
+    (one BS sub-step per N-body step) to 50 (many sub-steps), both directions of time, three tolerances: the error against
+    cos/sin evaluated AT sim.t must shrink with the tolerance and end small.  Plus an ODE that reads N-body positions."""
+    rng = random.Random(seed ^ 0x0de)
+    out = []
+    def base(integ, dt, sign, typ=None):
+        sim = make_system(seed)
+        sim.integrator = integ
+        if integ == "saba":
+            sim.ri_saba.type = typ if typ is not None else 6
+        sim.dt = sign * dt
+        return sim
+    def osc(integ, dt, w, T, eps, sign):
+        sim = base(integ, dt, sign)
+        sim.ri_bs.eps_rel = eps; sim.ri_bs.eps_abs = eps
+        ode = sim.create_ode(length=2, needs_nbody=False)
+        def rhs(ode, yDot, y, t):
+            yDot[0] = y[1]; yDot[1] = -w * w * y[0]
+        ode.derivatives = rhs
+        ode.y[0] = 1.0; ode.y[1] = 0.0
+        sim.integrate(sign * T, exact_finish_time=1)
+        return math.hypot(ode.y[0] - math.cos(w * sim.t), ode.y[1] / w + math.sin(w * sim.t))
+    integs = ["whfast", "saba", "leapfrog", "mercurius", "ias15", "trace", "bs", "eos", "janus"]
+    T = 1.0
+    for integ in integs:
+        for wdt in (0.1, 1.0, 7.0, 50.0):
+            dt = rng.choice([0.05, 0.04, 0.0625])
+            for sign in ((1, -1) if (tier != "quick" or wdt in (7.0, 50.0)) else (1,)):
+                w = wdt / dt
+                es = [osc(integ, dt, w, T, eps, sign) for eps in (1e-5, 1e-8, 1e-11)]
+                bound = 1e-9 * max(1.0, w * T)        # eps = 1e-11 accumulates over ~ w T / few radians
+                ok = (es[1] <= max(2 * es[0], 1e-10) and es[2] <= max(2 * es[1], 1e-12) and es[2] <= bound
+                      and es[0] <= 1e-3 * max(1.0, w * T) * 1e-2 + 1e-4)
+                out.append({"name": "ode/%s/w*dt=%g" % (integ, wdt), "sign": sign, "system_seed": seed, "errors": es, "ok": ok,
+                            "options": {"integrator": integ, "dt": sign * dt, "omega": w, "T": sign * T, "eps": [1e-5, 1e-8, 1e-11]}})
+    # JANUS probe (kept as its own point: it failed until /repo 6b44a1d, see known_findings order:ode/janus)
+    es = [osc("janus", 0.05, 20.0, T, eps, 1) for eps in (1e-5, 1e-8, 1e-11)]
+    out.append({"name": "ode/janus", "sign": 1, "system_seed": seed, "errors": es, "ok": es[2] <= 1e-7 and es[1] <= max(2 * es[0], 1e-10),
+                "options": {"integrator": "janus", "dt": 0.05, "omega": 20.0, "T": T}})
+    # an ODE that needs the N-body state: y' = x of planet 1.  Coupled (BS): error shrinks with eps.  Decoupled (WHFast etc.):
+    # documented first-order coupling error (positions frozen at the end of the step): must at least halve when dt is halved twice.
+    def nb(integ, dt, eps):
+        sim = base(integ, dt, 1)
+        sim.ri_bs.eps_rel = eps; sim.ri_bs.eps_abs = eps
+        ode = sim.create_ode(length=1, needs_nbody=True)
+        def rhs(ode, yDot, y, t):
+            yDot[0] = ode.contents.r.contents.particles[1].x
+        ode.derivatives = rhs
+        ode.y[0] = 0.0
+        sim.integrate(T, exact_finish_time=1)
+        return ode.y[0]
+    ref = nb("bs", 0.01, 1e-13)
+    es = [abs(nb("bs", 0.05, eps) - ref) for eps in (1e-5, 1e-8, 1e-11)]
+    out.append({"name": "ode-nbody/bs", "system_seed": seed, "errors": es,
+                "ok": es[1] <= max(2 * es[0], 1e-10) and es[2] <= max(2 * es[1], 1e-11) and es[2] <= 1e-8})
+    for integ in ("whfast", "leapfrog", "saba"):
+        es = [abs(nb(integ, dt, 1e-10) - ref) for dt in (0.1, 0.05, 0.025)]
+        out.append({"name": "ode-nbody/%s (first-order coupling)" % integ, "system_seed": seed, "errors": es,
+                    "ok": es[2] <= 0.75 * es[0] or es[2] <= 1e-3})
+    return out
+
+
 def main():
     seed = int(sys.argv[1]); tier = sys.argv[2]
     only = sys.argv[3] if len(sys.argv) > 3 else None
@@ -274,7 +338,7 @@ def main():
                 if not ok:
                     failures.append(rec)
         if not only:
-            for a in adaptive_checks(ss, T0):
+            for a in adaptive_checks(ss, T0) + ode_checks(ss, tier):
                 a["system_seed"] = ss
                 points.append(a)
                 if not a["ok"]:
